@@ -66,6 +66,8 @@ pub enum LogError {
     Io(io::ErrorKind, String),
     Message(String),
     Config(String),
+    /// the search panicked (message of the panic)
+    Panicked(String),
 }
 
 impl std::fmt::Display for LogError {
